@@ -166,9 +166,11 @@ def _call_chain_owns(P, E, b, bb, R, depth=0):
         acl = ty_closure(a.get("t"))
         if acl and acl in P.bodies and _any_alias(_closure_capture_roots(P, P.bodies[acl], view=b), R):
             return True
-    if c.args:
-        for t in b.operand_prov(c.args[0]):
-            if t[0] == "ret" and _call_chain_owns(P, E, b, t[1], R, depth + 1):
+    # .. or through any argument that is itself the result of such a call (the receiver of a chained call,
+    # an Observer built by Observer::new(closures..) and handed to inner_subscribe)
+    for a in c.args:
+        for t in b.operand_prov(a):
+            if t[0] == "ret" and t[1] != bb and _call_chain_owns(P, E, b, t[1], R, depth + 1):
                 return True
     return False
 
